@@ -589,6 +589,73 @@ package reflect
 //@   loop 0 invariant rvStrip(v) == rvStrip(x.Default)
 //@   loop 0 decreases rvKind(v) == reflect.Ptr ? rvDepth(v) + 1 : 0
 
+// --- struct descriptor cache used while building (desc.go) ---------------------------------
+// prefetchStructDescCache maps a struct type to its descriptor as soon as the descriptor exists,
+// so that recursive types terminate. $complete: descriptors whose nested descriptors have all
+// been fetched; $inprog: types whose descriptor is being prefetched further up the call stack.
+// Invariant: every cached descriptor is complete or in progress. A failed build leaves no
+// trace: the entry of the type being built is removed again, every entry that existed before is
+// unchanged, and whatever else was added is complete (C13: same answer on every call; C07).
+//@ const ghost $complete = (Array Int Bool)
+//@ const ghost $inprog = (Array Int Bool)
+//@ macro pfinv = forall k reflect.Type :: {maphas(prefetchStructDescCache, k)} maphas(prefetchStructDescCache, k) ==> mapget(prefetchStructDescCache, k) != nil && ($complete[mapget(prefetchStructDescCache, k)] || $inprog[k])
+//@ macro pfstable = forall k reflect.Type :: {maphas(prefetchStructDescCache, k)} old(maphas(prefetchStructDescCache, k)) ==> maphas(prefetchStructDescCache, k) && mapget(prefetchStructDescCache, k) == old(mapget(prefetchStructDescCache, k))
+//@ macro pfclean = forall k reflect.Type :: {maphas(prefetchStructDescCache, k)} maphas(prefetchStructDescCache, k) && !old(maphas(prefetchStructDescCache, k)) ==> $complete[mapget(prefetchStructDescCache, k)]
+//@ macro pfmono = forall a Int :: {$complete[a]} old($complete[a]) ==> $complete[a]
+
+// newStructDesc is not yet under contract (A-WF): a fresh descriptor or an error; it does not touch this cache
+//@ trusted func reflect.newStructDesc(t reflect.Type) (sd *structDesc, err error)
+//@   modifies $brk, $maps
+//@   ensures old($brk) <= $brk
+//@   ensures err == nil ==> sd != nil && old($brk) <= sd && !$complete[sd]
+//@   ensures err == nil ==> forall i int :: {sd.fields[i]} 0 <= i && i < len(sd.fields) ==> sd.fields[i] != nil && sd.fields[i].Type != nil && wfTshape(sd.fields[i].Type)
+//@   ensures err != nil ==> sd == nil
+//@   ensures forall k reflect.Type :: {maphas(prefetchStructDescCache, k)} maphas(prefetchStructDescCache, k) == old(maphas(prefetchStructDescCache, k)) && mapget(prefetchStructDescCache, k) == old(mapget(prefetchStructDescCache, k))
+
+//@ func newStructDescAndPrefetch(t reflect.Type) (sd *structDesc, err error)
+//@   requires prefetchStructDescCache != nil
+//@   requires c07_inv: $(pfinv)
+//@   modifies $maps, $brk, $complete, $inprog, "H.tType.Sd"
+//@   after newStructDesc ghost $inprog = (res_err == nil ? store($inprog, t, true) : $inprog)
+//@   after prefetchSubStructDesc ghost $complete = (res_err == nil ? store($complete, sd, true) : $complete)
+//@   after prefetchSubStructDesc ghost $inprog = store($inprog, t, old($inprog[t]))
+//@   ensures c07_inv: $(pfinv)
+//@   ensures c07_stable: $(pfstable)
+//@   ensures c07_mono: $(pfmono)
+//@   ensures c13_clean: $(pfclean)
+//@   ensures c13_removed: err != nil ==> sd == nil && (maphas(prefetchStructDescCache, t) <==> old(maphas(prefetchStructDescCache, t)))
+//@   ensures c07_cached: err == nil ==> sd != nil && maphas(prefetchStructDescCache, t) && mapget(prefetchStructDescCache, t) == sd
+//@   ensures c07_inprog: forall k reflect.Type :: {$inprog[k]} $inprog[k] == old($inprog[k])
+//@   ensures old($brk) <= $brk
+
+//@ func prefetchSubStructDesc(d *structDesc) (err error)
+//@   requires d != nil && prefetchStructDescCache != nil
+//@   requires forall i int :: {d.fields[i]} 0 <= i && i < len(d.fields) ==> d.fields[i] != nil && d.fields[i].Type != nil && wfTshape(d.fields[i].Type)
+//@   requires c07_inv: $(pfinv)
+//@   modifies $maps, $brk, $complete, $inprog, "H.tType.Sd"
+//@   ensures c07_inv: $(pfinv)
+//@   ensures c07_stable: $(pfstable)
+//@   ensures c07_mono: $(pfmono)
+//@   ensures c13_clean: $(pfclean)
+//@   ensures c07_inprog: forall k reflect.Type :: {$inprog[k]} $inprog[k] == old($inprog[k])
+//@   ensures old($brk) <= $brk
+//@   loop 0 invariant c07_inv: $(pfinv)
+//@   loop 0 invariant c07_stable: $(pfstable)
+//@   loop 0 invariant c07_mono: $(pfmono)
+//@   loop 0 invariant c13_clean: $(pfclean)
+//@   loop 0 invariant c07_inprog: forall k reflect.Type :: {$inprog[k]} $inprog[k] == old($inprog[k])
+
+//@ func fetchStructDesc(t *tType) (err error)
+//@   requires wfTshape(t) && prefetchStructDescCache != nil
+//@   requires c07_inv: $(pfinv)
+//@   modifies $maps, $brk, $complete, $inprog, "H.tType.Sd"
+//@   ensures c07_inv: $(pfinv)
+//@   ensures c07_stable: $(pfstable)
+//@   ensures c07_mono: $(pfmono)
+//@   ensures c13_clean: $(pfclean)
+//@   ensures c07_inprog: forall k reflect.Type :: {$inprog[k]} $inprog[k] == old($inprog[k])
+//@   ensures old($brk) <= $brk
+
 // ===========================================================================
 // ENCODER
 // ===========================================================================
@@ -1062,3 +1129,4 @@ package reflect
 //@   modifies t.AppendFunc
 //@   panics when t.T != tMAP
 //@   ensures c02_registered: implementsAppend(t)
+
